@@ -304,7 +304,9 @@ def main():
     except common.DriverError as e:
         infra_error = f"model driver failed: {e}"
         broken.append(infra_error)
-    except Exception as e:  # noqa: BLE001
+    except (KeyboardInterrupt, SystemExit):
+        raise
+    except BaseException as e:  # noqa: BLE001  (also pyo3 panics of Qiskit's Rust core, which derive from BaseException)
         infra_error = traceback.format_exc()
         # An exception raised INSIDE the implementation under test (innermost frame in /repo's package) while the harness exercised it is not an
         # infrastructure problem: the harness never raises on the unchanged tree, so the tie to the code could not be established for this run —
